@@ -72,9 +72,15 @@ func (f *Defgeneric) Call(s *slip.Scope, args slip.List, depth int) slip.Object 
 	if !ok {
 		slip.TypePanic(s, depth, "function-name", args[0], "symbol")
 	}
+	var xaux *Aux
 	if fi := slip.FindFunc(string(name)); fi != nil && !fi.Undefined() {
-		if _, ok = fi.Aux.(*Aux); !ok {
+		if xaux, ok = fi.Aux.(*Aux); !ok {
 			slip.ProgramPanic(s, depth, "%s already names an ordinary function or macro.", name)
+		}
+		if fi.Pkg != slip.CurrentPackage {
+			// A generic function inherited from another package is not
+			// defined again, the current package gets one of its own.
+			xaux = nil
 		}
 	}
 	var ll slip.List
@@ -95,13 +101,11 @@ func (f *Defgeneric) Call(s *slip.Scope, args slip.List, depth int) slip.Object 
 		fd.Args[i] = &slip.DocArg{Name: string(sym)}
 	}
 	aux := NewAux(&fd)
-	if fi := slip.FindFunc(string(name)); fi != nil {
-		if old, _ := fi.Aux.(*Aux); old != nil {
-			// The reader, writer, and accessor methods made by the slot
-			// options of a defclass are not part of a defgeneric form, they
-			// stay when the generic function is defined again.
-			old.keepAccessorMethods(aux)
-		}
+	if xaux != nil {
+		// The reader, writer, and accessor methods made by the slot options
+		// of a defclass are not part of a defgeneric form, they stay when
+		// the generic function is defined again.
+		xaux.keepAccessorMethods(aux)
 	}
 	for _, a := range args[2:] {
 		var option slip.List
@@ -124,6 +128,21 @@ func (f *Defgeneric) Call(s *slip.Scope, args slip.List, depth int) slip.Object 
 		default:
 			slip.TypePanic(s, depth, "option keyword", option[0], "symbol")
 		}
+	}
+	if xaux != nil {
+		// The generic function is defined again. Calls compiled earlier
+		// refer to the table of methods it had so that table is given the
+		// new content instead of being replaced.
+		xaux.moo.Lock()
+		xaux.docs = aux.docs
+		xaux.reqCnt = aux.reqCnt
+		xaux.cache = aux.cache
+		xaux.epoch = aux.epoch
+		xaux.methods = aux.methods
+		xaux.defaultKey = aux.defaultKey
+		xaux.defaultCaller = aux.defaultCaller
+		xaux.moo.Unlock()
+		aux = xaux
 	}
 	return slip.CurrentPackage.Define(
 		func(args slip.List) slip.Object {
